@@ -20,7 +20,7 @@ func ObjectGetAttr(o Object, attr string) Object {
 // Gets the repr for an object
 func ObjectRepr(o Object) Object {
 	// FIXME
-	return String(fmt.Sprintf("<%s %v>", o.Type().Name, o))
+	return String(fmt.Sprintf("<%s object at %p>", o.Type().Name, o))
 }
 
 // Return whether the object is True or not
